@@ -153,7 +153,11 @@ func cmdVerify(args []string) {
 				}
 			}
 			if *dump != "" && strings.Contains(o.Name, *dump) {
-				fmt.Println(o.Query)
+				if os.Getenv("GOVC_DUMP_HINTED") != "" && o.Hinted != "" {
+					fmt.Println(o.Hinted)
+				} else {
+					fmt.Println(o.Query)
+				}
 			}
 		}
 		if *verbose {
